@@ -162,10 +162,11 @@ Theorem C02_wrong_key :
 Proof. exact wrong_key_releases_nothing. Qed.
 Print Assumptions C02_wrong_key.
 
-(* ... and that premise cannot be dropped on the tree without fixes/C02-zero-key-forgery.patch
-   (variant Original): a document MACed and sealed under the all-zero file key — anyone can make
-   one — with a wrapped key the callback cannot unwrap is accepted and its plaintext released
-   with a clean EOF; with the patch (variant Fixed) it is refused. *)
+(* ... and that premise could not be dropped on the code before fix: commit 32f907c
+   (fixes/C02-zero-key-forgery.patch; variant Original): a document MACed and sealed under the
+   all-zero file key — anyone can make one — with a wrapped key the callback cannot unwrap was
+   accepted and its plaintext released with a clean EOF; the current tree (variant Fixed, to
+   which the correspondence check is pinned) refuses it. *)
 Theorem C02_zero_key_forgery_refuted :
   exists d' p', p' <> [] /\
     decrypt_stream concrete Original 2 400 (fun _ _ _ => ([], true)) [] [DataEOF d']
